@@ -661,48 +661,65 @@ func (a *A) ruleNullNeverRenderedForCompare() int {
 			continue
 		}
 		allInstrs(fn, func(in ssa.Instruction) {
-			c, ok := in.(*ssa.Call)
-			if !ok {
+			sp, ok := in.(*ssa.Call)
+			if !ok || sp.Call.StaticCallee() == nil || sp.Call.StaticCallee().Pkg == nil || sp.Call.StaticCallee().Pkg.Pkg.Path() != "fmt" || sp.Call.StaticCallee().Name() != "Sprintf" {
 				return
 			}
-			callee := c.Call.StaticCallee()
-			if callee == nil || !a.fnInModule(callee) {
+			if !strings.Contains(constText(sp.Call.Args[0]), "%v") {
 				return
 			}
-			for _, arg := range c.Call.Args {
-				sp, ok := arg.(*ssa.Call)
-				if !ok || sp.Call.StaticCallee() == nil || sp.Call.StaticCallee().Pkg == nil || sp.Call.StaticCallee().Pkg.Pkg.Path() != "fmt" || sp.Call.StaticCallee().Name() != "Sprintf" {
+			// the rendered text is handed (directly, or through a variable / the result of a small
+			// rendering helper that was inlined) to a function of the module that compares it
+			var consumer *ssa.Function
+			for v := range flowsForward(sp) {
+				if v.Referrers() == nil {
 					continue
 				}
-				if !strings.Contains(constText(sp.Call.Args[0]), "%v") {
-					continue
-				}
-				for _, e := range appendedElems(&sp.Call) {
-					x := e
-					if mi, ok := x.(*ssa.MakeInterface); ok {
-						x = mi.X
-					}
-					p, isParam := x.(*ssa.Parameter)
-					if !isParam {
-						continue
-					}
-					if _, isIface := p.Type().Underlying().(*types.Interface); !isIface {
-						continue
-					}
-					n++
-					reach := reachUnder(fn, c, func(v ssa.Value) Tri {
-						if bo, ok := v.(*ssa.BinOp); ok && (bo.Op == token.EQL || bo.Op == token.NEQ) && isNilConst(bo.Y) && bo.X == ssa.Value(p) {
-							if bo.Op == token.EQL {
-								return T
+				for _, r := range *v.Referrers() {
+					if c, ok := r.(*ssa.Call); ok && c != sp {
+						if callee := c.Call.StaticCallee(); callee != nil && a.fnInModule(callee) {
+							for _, arg := range c.Call.Args {
+								if arg == v {
+									consumer = callee
+								}
 							}
-							return F
 						}
-						return U
-					})
-					a.Check(!reach, fmt.Sprintf("%s#%s-rendered-to-%s", fname(fn), p.Name(), callee.Name()), c.Pos(),
-						"the operand is rendered as text for "+callee.Name()+" only when it is not nil",
-						"the operand "+p.Name()+" is rendered with %v and compared as text by "+callee.Name()+" also when it is nil: NULL is then the text \"<nil>\", which LIKE '%' and '_____' match")
+					}
 				}
+			}
+			if consumer == nil {
+				return
+			}
+			for _, e := range appendedElems(&sp.Call) {
+				x := e
+				if mi, ok := x.(*ssa.MakeInterface); ok {
+					x = mi.X
+				}
+				var p *ssa.Parameter
+				for _, l := range phiLeaves(x) {
+					if q, isParam := l.(*ssa.Parameter); isParam {
+						p = q
+					}
+				}
+				if p == nil {
+					continue
+				}
+				if _, isIface := p.Type().Underlying().(*types.Interface); !isIface {
+					continue
+				}
+				n++
+				reach := reachUnder(fn, sp, func(v ssa.Value) Tri {
+					if bo, ok := v.(*ssa.BinOp); ok && (bo.Op == token.EQL || bo.Op == token.NEQ) && isNilConst(bo.Y) && bo.X == ssa.Value(p) {
+						if bo.Op == token.EQL {
+							return T
+						}
+						return F
+					}
+					return U
+				})
+				a.Check(!reach, fmt.Sprintf("%s#%s-rendered-to-%s", fname(fn), p.Name(), consumer.Name()), sp.Pos(),
+					"the operand is rendered as text for "+consumer.Name()+" only when it is not nil",
+					"the operand "+p.Name()+" is rendered with %v and compared as text by "+consumer.Name()+" also when it is nil: NULL is then the text \"<nil>\", which LIKE '%' and '_____' match")
 			}
 		})
 	}
